@@ -132,7 +132,16 @@ class C14(Check):
         scen['cache'] = rng.choice(['rec', 'rec', 'dict_obj'])
         if scen['cache'] == 'dict_obj':
             scen['cache'] = 'rec'
-        scen['epilogue'] = True
+        scen['epilogue'] = rng.choice([True, 'hit_first'])
+        if rng.random() < 0.3:
+            # an owner that runs its loop again later: the computation it left pending completes after all
+            for t in scen['threads']:
+                if any(c['style'] == 'task' for c in t['callers']) and rng.random() < 0.7:
+                    t['life'] = 'resume'
+                    if not t['pause']:
+                        t['pause'] = rng.choice([2 * C.U, 8 * C.D0, 12 * C.D0])
+            if rng.random() < 0.5 and len(scen['inv']) > 1:
+                scen['inv'][1] = [scen['inv'][1][0], True]       # the first successor computation fails
         strat = C.make_strategy(rng)
         r = self.ch.run(scen, strat, None)
         res = CaseResult()
@@ -154,6 +163,23 @@ class C14(Check):
         ev = next((i for i, e in enumerate(log) if e[0] == 'evict_all'), None)
         if ev is None:
             return res
+        if any(e[0] == 'lresume' and e[2] for e in log):
+            st['concurrent_with_resumed_loop'] += 1
+        # equal arguments share an entry: nothing is evicted before 'evict_all', so a call made after some caller
+        # already received a value for the key finds that entry and does not start a computation of its own
+        first_ok = {}
+        for i, e in enumerate(log[:ev]):
+            if e[0] == 'ret' and e[2] == 'ok':
+                k = e[3][0]
+                first_ok.setdefault(k, i)
+        for i, e in enumerate(log[:ev]):
+            if e[0] == 'call' and e[2] in first_ok and i > first_ok[e[2]]:
+                st['calls_after_a_value_was_returned'] += 1
+                own = [x for x in log[i:ev] if x[0] == 'istart' and x[2] == e[2] and x[4] == e[1]]
+                if own:
+                    res.violate('C14:not-shared', 'a caller had already received a value for these arguments and nothing was evicted, '
+                                'yet a later call with equal arguments computed again', key=e[2], caller=e[1], scenario=scen)
+                    break
         had = set(log[ev][1])
         for i, e in enumerate(log):
             if e[0] == 'eret':
@@ -384,7 +410,8 @@ class C14(Check):
     def floors(self, tier):
         k = 1 if tier == 'quick' else 15
         return {'nontrivial': 20000 * k, 'cache_hostile': 3000 * k, 'evicted_key_requested_again': 2000 * k,
-                'concurrent_with_cancelled_waiter_then_evicted': 500 * k, 'hits_between_distinct_but_equal_signatures': 15000 * k, 'evictions': 3000 * k,
+                'concurrent_with_cancelled_waiter_then_evicted': 500 * k, 'calls_after_a_value_was_returned': 1500 * k,
+                'concurrent_with_resumed_loop': 150 * k, 'hits_between_distinct_but_equal_signatures': 15000 * k, 'evictions': 3000 * k,
                 'lru_evictions_predicted': 3000 * k, 'model_hits': 50000 * k, 'model_misses': 50000 * k}
 
 
